@@ -1,1 +1,520 @@
-pub fn run(_ctx: mc_core::Ctx) -> ! { mc_core::report::machinery_failure("todo") }
+//! C31 — UTxO effects of a transaction follow the phase-2 validity rule.
+//! GRID: every transaction of every real block (test_data + immutable-DB
+//! chunks) and of every stand-alone `.tx` file, as is and under generated
+//! variants rewritten on the refcbor AST: validity flags (all valid / all
+//! invalid / single flips), duplicated + unsorted inputs, a synthetic
+//! collateral list with a duplicate, collateral return forced present / absent.
+//! Expected effects come from the refcbor view of the (rewritten) bytes.
+
+use crate::c30::{BlockAst, Problem};
+use crate::corpus::{self, Artefact, RefTx, TxShape};
+use crate::obs::{self, InKey, OutSig};
+use crate::rewrite;
+use mc_core::refcbor::{self, Node};
+use mc_core::{catch, cov, json, Ctx, Level, Value};
+use pallas_traverse::{MultiEraBlock, MultiEraTx};
+use rayon::prelude::*;
+use std::collections::{BTreeMap, BTreeSet};
+
+#[derive(Default, Clone)]
+pub struct TxStats {
+    pub valid: u64,
+    pub invalid: u64,
+    pub dup_inputs: u64,
+    pub dup_collateral: u64,
+    pub invalid_with_return: u64,
+    pub invalid_without_return: u64,
+}
+
+impl TxStats {
+    fn add(&mut self, o: &TxStats) {
+        self.valid += o.valid;
+        self.invalid += o.invalid;
+        self.dup_inputs += o.dup_inputs;
+        self.dup_collateral += o.dup_collateral;
+        self.invalid_with_return += o.invalid_with_return;
+        self.invalid_without_return += o.invalid_without_return;
+    }
+}
+
+fn has_dup<T: Ord + Clone>(v: &[T]) -> bool {
+    let s: BTreeSet<T> = v.iter().cloned().collect();
+    s.len() != v.len()
+}
+
+/// The oracle: compare the UTxO effects reported by the real MultiEraTx with
+/// those that follow from the reference view of the same bytes.
+pub fn check_tx(tx: &MultiEraTx, rt: &RefTx, label: &str, problems: &mut Vec<Problem>, st: &mut TxStats) {
+    let mut p = |fp: &str, what: String| problems.push(Problem { fp: fp.to_string(), what: format!("{label}: {what}") });
+    let key = |i: &corpus::RefInput| -> InKey { (i.tx.clone(), i.index) };
+    let ref_inputs: Vec<InKey> = rt.inputs.iter().map(key).collect();
+    let ref_coll: Vec<InKey> = rt.collateral.iter().map(key).collect();
+    let n = rt.outputs.len();
+    if has_dup(&ref_inputs) {
+        st.dup_inputs += 1;
+    }
+
+    // ---- consumes
+    let cons: Vec<InKey> = tx.consumes().iter().map(obs::in_key).collect();
+    let cons_set: BTreeSet<InKey> = cons.iter().cloned().collect();
+    if cons_set.len() != cons.len() {
+        p("consumes:same-input-more-than-once", format!("consumes() lists an input twice ({} entries, {} distinct)", cons.len(), cons_set.len()));
+    }
+    if rt.valid {
+        st.valid += 1;
+        let exp: BTreeSet<InKey> = ref_inputs.iter().cloned().collect();
+        if cons_set != exp {
+            p("consumes:valid-tx-not-its-inputs", format!("valid tx: consumes() has {} distinct refs, the body has {} distinct inputs", cons_set.len(), exp.len()));
+        }
+    } else {
+        st.invalid += 1;
+        if has_dup(&ref_coll) {
+            st.dup_collateral += 1;
+        }
+        let exp: BTreeSet<InKey> = ref_coll.iter().cloned().collect();
+        if cons_set != exp {
+            let inputs_set: BTreeSet<InKey> = ref_inputs.iter().cloned().collect();
+            p(
+                "consumes:invalid-tx-not-its-collateral",
+                format!(
+                    "invalid tx: consumes() has {} distinct refs{}, the body has {} distinct collateral inputs",
+                    cons_set.len(),
+                    if cons_set == inputs_set { " (= the regular inputs)" } else { "" },
+                    exp.len()
+                ),
+            );
+        }
+    }
+
+    // ---- produces
+    let prod: Vec<(usize, OutSig)> = tx.produces().iter().map(|(i, o)| (*i, obs::out_sig(o))).collect();
+    let expected: Vec<(usize, OutSig)> = if rt.valid {
+        rt.outputs.iter().enumerate().map(|(i, o)| (i, obs::ref_sig(o))).collect()
+    } else {
+        match &rt.collateral_return {
+            Some(o) => {
+                st.invalid_with_return += 1;
+                vec![(n, obs::ref_sig(o))]
+            }
+            None => {
+                st.invalid_without_return += 1;
+                vec![]
+            }
+        }
+    };
+    let mut ps = prod.clone();
+    ps.sort();
+    let mut es = expected.clone();
+    es.sort();
+    if ps != es {
+        let idx: Vec<usize> = prod.iter().map(|x| x.0).collect();
+        let eidx: Vec<usize> = expected.iter().map(|x| x.0).collect();
+        if rt.valid {
+            p("produces:valid-tx-not-its-outputs", format!("valid tx with {n} outputs: produces() indices {idx:?}, expected {eidx:?} with the outputs' address and coin"));
+        } else {
+            p(
+                "produces:invalid-tx-not-only-collateral-return",
+                format!("invalid tx with {n} outputs, collateral return {}: produces() indices {idx:?}, expected {eidx:?}", if rt.collateral_return.is_some() { "present" } else { "absent" }),
+            );
+        }
+    }
+
+    // ---- produces_at agrees with produces
+    for j in 0..=n + 1 {
+        let at = tx.produces_at(j).map(|o| obs::out_sig(&o));
+        let listed: Vec<&OutSig> = prod.iter().filter(|(i, _)| *i == j).map(|(_, s)| s).collect();
+        let agrees = match (&at, listed.as_slice()) {
+            (None, []) => true,
+            (Some(a), [l]) => a == *l,
+            _ => false,
+        };
+        if !agrees {
+            p("produces_at:disagrees-with-produces", format!("produces_at({j}) is {} but produces() lists {} entries at that index", if at.is_some() { "Some" } else { "None" }, listed.len()));
+        }
+    }
+
+    // ---- inputs_sorted_set
+    let ss: Vec<InKey> = tx.inputs_sorted_set().iter().map(obs::in_key).collect();
+    if ss.windows(2).any(|w| w[0] >= w[1]) {
+        p("inputs_sorted_set:not-strictly-increasing", format!("inputs_sorted_set() is not strictly increasing in (tx id, index): {} entries", ss.len()));
+    }
+    let sset: BTreeSet<InKey> = ss.iter().cloned().collect();
+    let exp: BTreeSet<InKey> = ref_inputs.iter().cloned().collect();
+    if sset != exp {
+        p("inputs_sorted_set:not-the-input-set", format!("inputs_sorted_set() has {} distinct refs, the body has {} distinct inputs", sset.len(), exp.len()));
+    }
+}
+
+struct CaseOut {
+    problems: Vec<Problem>,
+    rejected: bool,
+    stats: TxStats,
+    txs: u64,
+}
+
+fn run_block(bytes: &[u8], label: &str) -> Result<CaseOut, String> {
+    let rb = corpus::ref_block(bytes)?;
+    let mut out = CaseOut { problems: vec![], rejected: false, stats: TxStats::default(), txs: 0 };
+    let r = catch(|| {
+        let block = match MultiEraBlock::decode(bytes) {
+            Ok(b) => b,
+            Err(_) => return None,
+        };
+        let mut problems = vec![];
+        let mut st = TxStats::default();
+        let txs = block.txs();
+        if txs.len() != rb.txs.len() {
+            problems.push(Problem { fp: "txs:length-differs-from-bodies".into(), what: format!("{label}: txs() yields {} transactions for {} bodies", txs.len(), rb.txs.len()) });
+        }
+        for (i, (tx, rt)) in txs.iter().zip(rb.txs.iter()).enumerate() {
+            check_tx(tx, rt, &format!("{label} tx {i}"), &mut problems, &mut st);
+        }
+        Some((problems, st, txs.len() as u64))
+    });
+    match r {
+        Err(pn) => out.problems.push(Problem { fp: pn.site(), what: format!("{label}: panicked: {} at {}", pn.message, pn.location) }),
+        Ok(None) => out.rejected = true,
+        Ok(Some((pr, st, n))) => {
+            out.problems = pr;
+            out.stats = st;
+            out.txs = n;
+        }
+    }
+    Ok(out)
+}
+
+#[derive(Clone, Copy, Debug, PartialEq, Eq, PartialOrd, Ord)]
+enum Flags {
+    AsIs,
+    AllValid,
+    AllInvalid,
+    Only(usize),
+    AllBut(usize),
+}
+
+#[derive(Clone, Copy, Debug, PartialEq, Eq, PartialOrd, Ord)]
+enum Ret {
+    AsIs,
+    Present,
+    Absent,
+}
+
+#[derive(Clone, Copy, Debug, PartialEq, Eq, PartialOrd, Ord)]
+struct Variant {
+    dup_inputs: bool,
+    synth_collateral: bool,
+    ret: Ret,
+    flags: Flags,
+}
+
+impl Variant {
+    fn is_base(&self) -> bool {
+        !self.dup_inputs && !self.synth_collateral && self.ret == Ret::AsIs && self.flags == Flags::AsIs
+    }
+    fn to_json(&self) -> Value {
+        json!({"dup_inputs": self.dup_inputs, "synthetic_collateral": self.synth_collateral, "collateral_return": format!("{:?}", self.ret), "flags": format!("{:?}", self.flags)})
+    }
+}
+
+fn rewrite_body(body: &mut Node, v: &Variant, era_tag: u64, byron: bool) {
+    if byron {
+        // byron tx = [inputs, outputs, attributes]
+        if v.dup_inputs {
+            if let Some(items) = body.as_array_mut() {
+                if let Some(arr) = items.get_mut(0) {
+                    if let Some(list) = arr.as_array_mut() {
+                        if !list.is_empty() {
+                            let first = list[0].clone();
+                            let last = list[list.len() - 1].clone();
+                            list.reverse();
+                            list.insert(0, first);
+                            list.push(last);
+                        }
+                    }
+                    rewrite::fix_width(arr);
+                }
+            }
+        }
+        return;
+    }
+    if v.dup_inputs {
+        rewrite::dup_inputs(body, 0);
+    }
+    if v.synth_collateral && era_tag >= 5 {
+        rewrite::synthetic_collateral(body);
+    }
+    if era_tag >= 6 {
+        match v.ret {
+            Ret::AsIs => {}
+            Ret::Present => {
+                rewrite::add_collateral_return(body, 777_777_001);
+            }
+            Ret::Absent => rewrite::map_remove(body, 16),
+        }
+    }
+}
+
+fn variant_block(base: &[u8], era_tag: u64, n: usize, v: &Variant) -> Vec<u8> {
+    let mut ast = BlockAst::parse(base).unwrap();
+    if era_tag == 1 {
+        // [header, [tx_payload, ..], extra]; tx_payload = [[tx, witnesses], ..]
+        let items = ast.block_items();
+        if let Some(body) = items[1].as_array_mut() {
+            if let Some(payload) = body[0].as_array_mut() {
+                for pair in payload.iter_mut() {
+                    if let Some(p) = pair.as_array_mut() {
+                        rewrite_body(&mut p[0], v, era_tag, true);
+                    }
+                }
+            }
+        }
+        return ast.to_vec();
+    }
+    {
+        let items = ast.block_items();
+        if let Some(bodies) = items[1].as_array_mut() {
+            for b in bodies.iter_mut() {
+                rewrite_body(b, v, era_tag, false);
+            }
+        }
+    }
+    if era_tag >= 5 {
+        match v.flags {
+            Flags::AsIs => {}
+            Flags::AllValid => ast.set_invalid(&[]),
+            Flags::AllInvalid => ast.set_invalid(&(0..n as u64).collect::<Vec<_>>()),
+            Flags::Only(i) => ast.set_invalid(&[i as u64]),
+            Flags::AllBut(i) => ast.set_invalid(&(0..n as u64).filter(|j| *j != i as u64).collect::<Vec<_>>()),
+        }
+    }
+    ast.to_vec()
+}
+
+fn variants_for(era_tag: u64, n: usize, single_flips: bool) -> Vec<Variant> {
+    let mut out = vec![];
+    let flags: Vec<Flags> = if era_tag >= 5 {
+        let mut f = vec![Flags::AsIs, Flags::AllValid, Flags::AllInvalid];
+        if single_flips && n >= 2 {
+            for i in 0..n {
+                f.push(Flags::Only(i));
+                f.push(Flags::AllBut(i));
+            }
+        }
+        f
+    } else {
+        vec![Flags::AsIs]
+    };
+    let colls: &[bool] = if era_tag >= 5 { &[false, true] } else { &[false] };
+    let rets: &[Ret] = if era_tag >= 6 { &[Ret::AsIs, Ret::Present, Ret::Absent] } else { &[Ret::AsIs] };
+    for &dup_inputs in &[false, true] {
+        for &synth_collateral in colls {
+            for &ret in rets {
+                for &fl in &flags {
+                    // single flips only on the fully rewritten and the untouched body
+                    if matches!(fl, Flags::Only(_) | Flags::AllBut(_)) && !((dup_inputs && synth_collateral) || (!dup_inputs && !synth_collateral && ret == Ret::AsIs)) {
+                        continue;
+                    }
+                    out.push(Variant { dup_inputs, synth_collateral, ret, flags: fl });
+                }
+            }
+        }
+    }
+    out
+}
+
+pub fn run(ctx: Ctx) -> ! {
+    let mut blocks: Vec<Artefact> = corpus::block_files();
+    blocks.extend(corpus::chunk_blocks());
+    let mut evals = 0u64;
+    let mut nontrivial: BTreeSet<String> = BTreeSet::new();
+    let mut samples: Vec<Value> = vec![];
+    let mut stats = TxStats::default();
+    let mut txs_total = 0u64;
+    let mut rejected_real: Vec<String> = vec![];
+    let mut rejected_variants = 0u64;
+    let mut accepted_variants = 0u64;
+    let mut by_era: BTreeMap<&'static str, u64> = BTreeMap::new();
+
+    // ---- blocks
+    struct BlockRes {
+        name: String,
+        era_tag: u64,
+        cases: Vec<(Variant, Result<CaseOut, String>, Option<String>)>,
+    }
+    let thorough = ctx.thorough;
+    let results: Vec<BlockRes> = blocks
+        .par_iter()
+        .map(|a| {
+            let rb = match corpus::ref_block(&a.bytes) {
+                Ok(r) => r,
+                Err(e) => mc_core::report::machinery_failure(&format!("reference reader cannot view {}: {e}", a.name)),
+            };
+            let n = rb.txs.len();
+            let mut cases = vec![];
+            if n == 0 {
+                return BlockRes { name: a.name.clone(), era_tag: rb.era_tag, cases };
+            }
+            let is_file = !a.name.contains('#');
+            for v in variants_for(rb.era_tag, n, thorough || is_file) {
+                let bytes = if v.is_base() { a.bytes.clone() } else { variant_block(&a.bytes, rb.era_tag, n, &v) };
+                let label = if v.is_base() { a.name.clone() } else { format!("{} {:?}", a.name, v) };
+                let r = run_block(&bytes, &label);
+                let keep = match &r {
+                    Ok(o) if !o.problems.is_empty() => Some(hex::encode(&bytes)),
+                    _ => None,
+                };
+                cases.push((v, r, keep));
+            }
+            BlockRes { name: a.name.clone(), era_tag: rb.era_tag, cases }
+        })
+        .collect();
+    for br in results.iter() {
+        for (v, r, bytes) in br.cases.iter() {
+            evals += 1;
+            let o = match r {
+                Ok(o) => o,
+                Err(e) => mc_core::report::machinery_failure(&format!("variant {v:?} of {} unreadable by the reference: {e}", br.name)),
+            };
+            if o.rejected {
+                if v.is_base() {
+                    rejected_real.push(br.name.clone());
+                } else {
+                    rejected_variants += 1;
+                }
+                continue;
+            }
+            if !v.is_base() {
+                accepted_variants += 1;
+            }
+            for p in &o.problems {
+                ctx.violation(p.fp.clone(), p.what.clone(), json!({"block": br.name, "era_tag": br.era_tag, "variant": v.to_json(), "block_hex": bytes}));
+            }
+            stats.add(&o.stats);
+            txs_total += o.txs;
+            *by_era.entry(corpus::era_name(br.era_tag)).or_default() += o.txs;
+            nontrivial.insert(format!("{}|{:?}", br.name, v));
+            if samples.len() < 6 && o.txs >= 2 && (evals % 1009 == 7 || samples.is_empty()) {
+                samples.push(json!({"block": br.name, "era_tag": br.era_tag, "variant": v.to_json(), "txs": o.txs}));
+            }
+        }
+    }
+
+    // ---- stand-alone transactions
+    let mut tx_rejected: Vec<String> = vec![];
+    let mut tx_cases = 0u64;
+    for a in corpus::tx_files() {
+        let (shape, _) = match corpus::ref_tx(&a.bytes) {
+            Ok(x) => x,
+            Err(e) => mc_core::report::machinery_failure(&format!("reference reader cannot view {}: {e}", a.name)),
+        };
+        let era_tag = match shape {
+            TxShape::Byron => 1,
+            TxShape::ShelleyMa => 4,
+            TxShape::AlonzoPlus => 7,
+        };
+        let mut variants = vec![];
+        for v in variants_for(era_tag, 1, false) {
+            variants.push(v);
+        }
+        for v in variants {
+            // rewrite on the AST of the stand-alone tx
+            let mut root = rewrite::strip_spans(refcbor::parse_one(&a.bytes).unwrap());
+            {
+                let items = root.as_array_mut().unwrap();
+                rewrite_body(&mut items[0], &v, era_tag, shape == TxShape::Byron);
+                if shape == TxShape::AlonzoPlus {
+                    match v.flags {
+                        Flags::AllValid => items[2] = Node::bool(true),
+                        Flags::AllInvalid => items[2] = Node::bool(false),
+                        _ => {}
+                    }
+                }
+            }
+            let bytes = if v.is_base() { a.bytes.clone() } else { root.to_vec() };
+            let (_, rt) = match corpus::ref_tx(&bytes) {
+                Ok(x) => x,
+                Err(e) => mc_core::report::machinery_failure(&format!("variant {v:?} of {} unreadable by the reference: {e}", a.name)),
+            };
+            evals += 1;
+            tx_cases += 1;
+            let label = format!("{} {:?}", a.name, v);
+            let r = catch(|| {
+                let tx = match MultiEraTx::decode(&bytes) {
+                    Ok(t) => t,
+                    Err(_) => return None,
+                };
+                let mut problems = vec![];
+                let mut st = TxStats::default();
+                // a collateral return exists only from Babbage on: a variant that
+                // adds one to a tx which pallas reads as an earlier era is not a legal input
+                let pre_babbage = tx.era() < pallas_traverse::Era::Babbage;
+                if !(pre_babbage && rt.collateral_return.is_some()) {
+                    check_tx(&tx, &rt, &label, &mut problems, &mut st);
+                }
+                Some((problems, st, obs::era_str(tx.era())))
+            });
+            match r {
+                Err(pn) => ctx.violation(pn.site(), format!("{label}: panicked: {} at {}", pn.message, pn.location), json!({"tx": a.name, "variant": v.to_json(), "tx_hex": hex::encode(&bytes)})),
+                Ok(None) => {
+                    if v.is_base() {
+                        tx_rejected.push(a.name.clone());
+                    } else {
+                        rejected_variants += 1;
+                    }
+                }
+                Ok(Some((problems, st, era))) => {
+                    if !v.is_base() {
+                        accepted_variants += 1;
+                    }
+                    for p in &problems {
+                        ctx.violation(p.fp.clone(), p.what.clone(), json!({"tx": a.name, "decoded_as": era, "variant": v.to_json(), "tx_hex": hex::encode(&bytes)}));
+                    }
+                    stats.add(&st);
+                    txs_total += 1;
+                    nontrivial.insert(format!("{}|{:?}", a.name, v));
+                }
+            }
+        }
+    }
+
+    for r in rejected_real.iter().chain(tx_rejected.iter()) {
+        ctx.note(format!("{r} is rejected by the pallas decoder in the default feature set (not a C31 matter)"));
+    }
+    if rejected_real.len() + tx_rejected.len() > 6 {
+        mc_core::report::machinery_failure(&format!("too many real artefacts rejected: {:?} {:?}", rejected_real, tx_rejected));
+    }
+    if stats.valid == 0 || stats.invalid == 0 || stats.dup_inputs == 0 || stats.dup_collateral == 0 || stats.invalid_with_return == 0 || stats.invalid_without_return == 0 {
+        mc_core::report::machinery_failure("vacuous: some class of the grid (valid / invalid / duplicate inputs / duplicate collateral / with / without collateral return) was never reached");
+    }
+    if rejected_variants * 4 > accepted_variants {
+        mc_core::report::machinery_failure(&format!("{rejected_variants} generated variants rejected by the decoder vs {accepted_variants} accepted"));
+    }
+    let cov = cov! {
+        "evaluations" => evals,
+        "distinct_nontrivial" => nontrivial.len(),
+        "rule" => "evaluation = one block (or stand-alone tx) variant decoded by pallas-traverse, every transaction of it compared with the refcbor-derived effects (consumes, produces, produces_at(0..=n+1), inputs_sorted_set); non-trivial = distinct (artefact, variant) that pallas accepted and that was fully compared",
+        "samples" => samples,
+        "transactions_checked" => txs_total,
+        "transactions_by_era" => by_era,
+        "tx_valid" => stats.valid,
+        "tx_invalid" => stats.invalid,
+        "tx_with_duplicate_inputs" => stats.dup_inputs,
+        "tx_invalid_with_duplicate_collateral" => stats.dup_collateral,
+        "tx_invalid_with_collateral_return" => stats.invalid_with_return,
+        "tx_invalid_without_collateral_return" => stats.invalid_without_return,
+        "standalone_tx_cases" => tx_cases,
+        "generated_accepted" => accepted_variants,
+        "generated_rejected_by_decode" => rejected_variants,
+        "real_rejected_by_decode" => rejected_real.iter().chain(tx_rejected.iter()).cloned().collect::<Vec<_>>(),
+        "exhaustive" => true,
+    };
+    ctx.finish(
+        Level::Exploration,
+        cov,
+        &[
+            "expected effects are computed from the refcbor view of the same (rewritten) bytes: inputs = body key 0, outputs = key 1, collateral = key 13, collateral return = key 16, validity = block invalid list / tx bool",
+            "outputs are identified by (address bytes, coin); the generated collateral return carries a coin that no other output has",
+            "validity variants only for era tags >= 5, collateral-return variants only for tags >= 6; single-flip validity variants for chunk blocks only in the thorough tier",
+        ],
+    )
+}
